@@ -105,6 +105,10 @@ type Spec struct {
 	Vars map[string]string
 	// VarPrefix maps atom prefixes to variables (for families of atoms).
 	Assume map[string]Assumption
+	// AssumePrefix: like Assume, for families of atoms sharing a prefix.
+	AssumePrefix map[string]Assumption
+	// VarPrefix maps atom prefixes to variables (families of atoms).
+	VarPrefix map[string]string
 	// Classify names the outcome class of a path ("" = unrecognised).
 	Classify func(p *Path, out string, e *Env) string
 	// Formula gives, per class, the condition under which the specification
@@ -193,7 +197,26 @@ func Check(rule *report.Rule, cfg *Config, sp *Spec) *Result {
 				}
 				continue
 			}
+			assumed := false
+			for pfx, as := range sp.AssumePrefix {
+				if strings.HasPrefix(a, pfx) {
+					assumed = true
+					if as.Val != l.Val {
+						feasible = false
+					}
+				}
+			}
+			if assumed {
+				continue
+			}
 			v, ok := sp.Vars[a]
+			if !ok {
+				for pfx, pv := range sp.VarPrefix {
+					if strings.HasPrefix(a, pfx) {
+						v, ok = pv, true
+					}
+				}
+			}
 			if !ok {
 				ign := false
 				for _, pfx := range sp.Ignore {
